@@ -11,6 +11,11 @@ Decided clauses:
        init_push / init_pull initialise the state by the same events.
   R9.2-order a rekey after a chunk is preceded by the counter increment (the next key is derived from the
        incremented nonce), also when the common tail is factored into a static helper (inlined).
+  R9.4 the chunk counter restarts at 1: on every returning path of rekey(), init_push() and init_pull() the bytes of the counter
+       (the region the wrap test of push reads with sodium_is_zero) end as the constants 01 00 00 00, whatever they held before:
+       each byte's last writer on the path is a constant store / fill (byte ranges of the writers from their constant offsets,
+       loop-index intervals and, for callees, E8's store extents). A reset that only sets the low byte keeps the old high bytes
+       after an explicit rekey, and the stream no longer matches the documented construction.
   R9.3 short input rejected, *mlen_p == 0 on failure (instances of R2.3 / R2.4).
 NOT decided: history-level delivery/ordering, behaviour at counter wrap as arithmetic, interop bytes.
 """
@@ -253,3 +258,137 @@ def run(ctx, chk):
             chk.ob("R9.3", pull, "failing exit: *mlen_p == 0 (or mlen_p NULL)", ok, loc=pull.loc(p.end_iid),
                    path=None if ok else p, key="R9.3 %s mlen_p" % pull.name)
     chk.floor("R9.3", "uses of inlen - ABYTES on pull paths", n, 10)
+    counter_reset_rule(ctx, prog, chk, push)
+
+
+def region_final(prog, hz, p, root, lo, hi):
+    """content of bytes [lo, hi) of the object `root` at the end of path p: per byte a constant, "old" (never written on the
+    path) or "unk" (last written with data that is not a known constant)"""
+    M = 1 << 62
+    cur = ["old"] * (hi - lo)
+
+    def span(addr, size):
+        co, c = T.linear(addr)
+        if co.get(root, 0) != 1:
+            return None
+        a = b = c
+        for atom, n in co.items():
+            if atom == root:
+                continue
+            iv = p.facts.interval(atom)
+            if iv is None or iv[1] > M:
+                return (0, M)
+            a += min(n * iv[0], n * iv[1])
+            b += max(n * iv[0], n * iv[1])
+        return (a, b + size)
+
+    def put(a, b, v, exact):
+        for k in range(max(a, lo), min(b, hi)):
+            if exact:
+                cur[k - lo] = v
+            elif cur[k - lo] != v:
+                cur[k - lo] = "unk"
+    for e in p.events:
+        if e.kind == "store":
+            if T.root(e.addr) != root:
+                continue
+            sp = span(e.addr, e.size)
+            if sp is None:
+                continue
+            exact = sp[1] - sp[0] == e.size
+            if e.val[0] == "c" and e.size == 1:
+                put(sp[0], sp[1], e.val[1] & 0xff, exact)
+            elif e.val[0] == "c" and exact:
+                for k in range(e.size):
+                    put(sp[0] + k, sp[0] + k + 1, (e.val[1] >> (8 * k)) & 0xff, True)
+            else:
+                put(sp[0], sp[1], "unk", exact)
+        elif e.kind == "call":
+            nm = e.callee_name() or ""
+            for k, a in enumerate(e.args or ()):
+                if not (isinstance(a, tuple) and T.root(a) == root):
+                    continue
+                if nm in ("memset", "llvm.memset") or nm.startswith("llvm.memset"):
+                    if k != 0:
+                        continue
+                    n = e.args[2]
+                    sp = span(a, n[1] if n[0] == "c" else M)
+                    if sp is None:
+                        continue
+                    v = e.args[1][1] & 0xff if e.args[1][0] == "c" else "unk"
+                    put(sp[0], sp[1], v, n[0] == "c" and sp[1] - sp[0] == n[1])
+                    continue
+                if nm in ("store32_le", "store64_le", "store32_be", "store64_be") and k == 0:
+                    width = 4 if "32" in nm else 8
+                    sp = span(a, width)
+                    v = e.args[1]
+                    if sp is not None:
+                        exact = sp[1] - sp[0] == width
+                        if v[0] == "c" and exact:
+                            bs = [(v[1] >> (8 * j)) & 0xff for j in range(width)]
+                            if nm.endswith("_be"):
+                                bs.reverse()
+                            for j, b in enumerate(bs):
+                                put(sp[0] + j, sp[0] + j + 1, b, True)
+                        else:
+                            put(sp[0], sp[1], "unk", exact)
+                    continue
+                if nm == "sodium_memzero" and k == 0:
+                    n = e.args[1]
+                    sp = span(a, n[1] if n[0] == "c" else M)
+                    if sp is not None:
+                        put(sp[0], sp[1], 0, n[0] == "c" and sp[1] - sp[0] == n[1])
+                    continue
+                if nm.startswith(("memcpy", "memmove", "llvm.memcpy", "llvm.memmove")):
+                    if k != 0:
+                        continue
+                    n = e.args[2]
+                    sp = span(a, n[1] if n[0] == "c" else M)
+                    if sp is not None:
+                        put(sp[0], sp[1], "unk", n[0] == "c" and sp[1] - sp[0] == n[1])
+                    continue
+                if not cm.writes_through(prog, p, e, root):
+                    continue
+                ext = None
+                if e.callee[0] == "fn":
+                    ext = hz.callee_extent(e.callee[1], k, "store")
+                sp0 = span(a, 0)
+                if sp0 is None:
+                    continue
+                if ext is None:
+                    put(sp0[0], M, "unk", False)
+                else:
+                    put(sp0[0] + ext[0], sp0[1] + ext[1], "unk", sp0[0] == sp0[1])
+    return cur
+
+
+def counter_reset_rule(ctx, prog, chk, push):
+    from .. import hazard, inline
+    hz = hazard.Hazards(ctx, prog)
+    ST = ("arg", 0)
+    # the counter is the region the wrap test reads
+    region = set()
+    for p in cm.paths(prog, push):
+        for e in p.calls("sodium_is_zero"):
+            if T.root(e.args[0]) == ST and e.args[1][0] == "c":
+                co, c = T.linear(e.args[0])
+                if co == {ST: 1}:
+                    region.add((c, c + e.args[1][1]))
+    if len(region) != 1:
+        raise AnalysisBroken("R9.4: the counter-wrap test sodium_is_zero(state + off, n) of push was found %d times with different regions" % len(region))
+    lo, hi = region.pop()
+    n = 0
+    for name in ("rekey", "init_push", "init_pull"):
+        fn = inline.inlined(prog, prog.need(PFX + name, rule="R9.4"))
+        for p in cm.paths(prog, fn):
+            if p.kind != "ret":
+                continue
+            n += 1
+            fin = region_final(prog, hz, p, ST, lo, hi)
+            want = [1] + [0] * (hi - lo - 1)
+            ok = fin == want
+            chk.ob("R9.4", fn, "the chunk counter state[%d..%d) is the constant 1 (little endian) when %s returns" % (lo, hi, name), ok,
+                   loc=fn.loc(p.end_iid), path=None if ok else p,
+                   detail="" if ok else "counter bytes at exit: %s (old = value from before the call survives, unk = not a constant)" %
+                   " ".join("%02x" % b if isinstance(b, int) else b for b in fin), key="R9.4 %s counter" % name)
+    chk.floor("R9.4", "returning paths of rekey / init_push / init_pull", n, 3)
